@@ -394,4 +394,5 @@ func TestC08(t *testing.T) {
 	core.Rapid(r, core.Check[typedPoolCase]{Name: "typed-composites", Gen: genTypedPool, Exec: execTypedPool("C08")}, r.N(800, 8000))
 	core.Rapid(r, core.Check[mutantCase]{Name: "copies-and-mutants", Gen: genMutantBase, Exec: execMutants}, r.N(1500, 15000))
 	core.Rapid(r, core.Check[cyclicCase]{Name: "cyclic", Gen: genCyclic, Exec: execCyclic}, r.N(400, 4000))
+	core.Rapid(r, core.Check[rankPastCase]{Name: "ranked-then-changed", Gen: genRankPast, Exec: execRankPast("C08")}, r.N(3000, 30000))
 }
